@@ -1,7 +1,7 @@
 (** C02 - Complete-model enumeration is sound, complete and duplicate-free (native back-end here;
     biodivine / hybrid in Adf/BioProofs.v).  Statements only; proofs in Adf/CompleteProofs.v. *)
 From Coq Require Import NArith List Bool.
-From ADF Require Import Spec.Spec Spec.Theory Bdd.Store Bdd.WF Bdd.Node Adf.Native Adf.NativeBase Adf.CompleteProofs.
+From ADF Require Import Spec.Spec Spec.Theory Bdd.Store Bdd.WF Bdd.Node Adf.Native Adf.NativeBase Adf.CompleteProofs Adf.Bio Adf.BioProofs Adf.BridgeProofs.
 Import ListNotations.
 Local Open Scope N_scope.
 
@@ -15,3 +15,27 @@ Print Assumptions C02_complete_native.
 Theorem C02_complete_total : forall c st ac, WF c st -> ac_ok st ac -> exists st' l, complete c st ac = Some (st', l).
 Proof. exact complete_total. Qed.
 Print Assumptions C02_complete_total.
+
+Theorem C02_complete_biodivine : forall c st ac st' l, WF c st -> ac_ok st ac -> bio_complete c st ac = Some (st', l) ->
+  WF c st' /\ extends st st' /\
+  NoDup (map interp_of l) /\ (forall v, In v (map interp_of l) <-> Complete (abs st ac) v) /\
+  (exists g, Grounded (abs st ac) g /\ hd_error (map interp_of l) = Some g).
+Proof. exact bio_complete_exact. Qed.
+Print Assumptions C02_complete_biodivine.
+
+(** hybrid (bridged) ADFs: the answer set and its head only depend on the denoted ADF *)
+Theorem C02_complete_depends_on_adf_only : forall c1 c2 st1 ac1 st2 ac2 s1' l1 s2' l2,
+  WF c1 st1 -> WF c2 st2 -> ac_ok st1 ac1 -> ac_ok st2 ac2 -> adf_eq (abs st1 ac1) (abs st2 ac2) ->
+  complete c1 st1 ac1 = Some (s1', l1) -> complete c2 st2 ac2 = Some (s2', l2) ->
+  (forall v, In v (map interp_of l1) <-> In v (map interp_of l2)) /\
+  hd_error (map interp_of l1) = hd_error (map interp_of l2).
+Proof. exact answers_determined_complete. Qed.
+Print Assumptions C02_complete_depends_on_adf_only.
+
+(** hybrid with pre-grounding *)
+Theorem C02_complete_hybrid_pregrounded : forall D g c st ts, Forall (supported (length D)) D -> Grounded D g -> WF c st ->
+  Forall (fun h => h < size st) ts -> adf_eq (abs st ts) (pregrounded D g) ->
+  forall st' l, complete c st ts = Some (st', l) ->
+  NoDup (map interp_of l) /\ (forall v, In v (map interp_of l) <-> Complete D v) /\ hd_error (map interp_of l) = Some g.
+Proof. exact hybrid_opt_complete. Qed.
+Print Assumptions C02_complete_hybrid_pregrounded.
